@@ -52,6 +52,8 @@ func c02Values() []c02Named {
 		{`"/"`, "/"}, {`"/admin"`, "/admin"}, {`"(["`, "(["}, {`"\\"`, "\\"},
 		{"struct embedding a nil pointer", c16S2{Own: "o"}}, {"*struct embedding a set pointer", &c16S2{&c16PE{7}, "o"}},
 		{"named []string with String()", c16Tags{"t1", "t2"}}, {"net.IP", net.IP{10, 0, 0, 1}}, {"time.Duration", 90 * time.Second},
+		// characters outside the basic multilingual plane, invalid UTF-8, NUL and other control characters
+		{`"\U0001F600\U00010000\U0010FFFF"`, "\U0001F600\U00010000\U0010FFFF"}, {`"\xff\xc3"`, "\xff\xc3"}, {`"a\x00b\x1f\u2028"`, "a\x00b\x1f\u2028"},
 	}
 }
 
@@ -61,6 +63,8 @@ var c02ArgVals = []c02Named{
 	{"nil", nil}, {"0", 0}, {"1", 1}, {"-1", -1}, {"2.5", 2.5}, {`""`, ""}, {`"a"`, "a"}, {"[]Value{}", []stick.Value{}}, {"map{}", map[string]stick.Value{}}, {"true", true},
 	{`","`, ","}, {"1e9", 1e9},
 	{`"\\"`, "\\"}, {`"d/m/Y \\a\\t H\\"`, "d/m/Y \\a\\t H\\"}, {`"%s%d%"`, "%s%d%"}, {`"Y-m-d H:i:s"`, "Y-m-d H:i:s"},
+	// the strategy names of the escape filter, and an encoding name
+	{`"css"`, "css"}, {`"js"`, "js"}, {`"url"`, "url"}, {`"html_attr"`, "html_attr"}, {`"UTF-8"`, "UTF-8"},
 }
 
 var c02BinOps = []string{"+", "-", "*", "/", "//", "%", "**", "~", "==", "!=", "<", "<=", ">", ">=", "and", "or", "in", "not in",
